@@ -68,10 +68,11 @@ static void rec_query(void) {
     vh_bprintf(&q, "%s", "");
     for (int i = 0; i < np; i++) {
         nl[i] = 1 + vh_rand() % 8; vl[i] = vh_rand() % 10;
+        if (vh_rand() % 6 == 0) { nl[i] = 0; vl[i] = 1 + vh_rand() % 9; }      /* a value without a name ("=v") */
         for (size_t j = 0; j < nl[i]; j++) { unsigned c = 1 + vh_rand() % 255; if (j == 0 || j == nl[i] - 1) while (isspace((int) c)) c = 1 + vh_rand() % 255; names[i][j] = (unsigned char) c; }
         for (size_t j = 0; j < vl[i]; j++) vals[i][j] = (unsigned char) (1 + vh_rand() % 255);
         char *en = qurl_encode(names[i], nl[i]), *ev = qurl_encode(vals[i], vl[i]);
-        vh_bprintf(&q, "%s%s=%s", i ? "&" : "", en, ev ? ev : "");
+        vh_bprintf(&q, "%s%s=%s", i ? "&" : "", en ? en : "", ev ? ev : "");
         free(en); free(ev);
     }
     char *query = exact(q.p, q.n);
